@@ -7,6 +7,7 @@ import (
 	"fmt"
 	"os"
 	"path/filepath"
+	"reflect"
 	"sort"
 	"strings"
 	"time"
@@ -501,7 +502,30 @@ func (w *World) Run(policy RunPolicy, maxSteps int) (int, bool) {
 }
 
 // ProposeSign lets node `by` propose a batch through the real API.
-func (w *World) ProposeSign(by int, roundID string, data map[string][]byte, rng *dto.Range) error {
+// Range is a window of baked positions [Start, End).
+type Range struct{ Start, End int }
+
+// dtoRange builds the repository's dto.Range whatever integer type its fields have (the harness must
+// keep compiling when a change under test retypes them).
+func dtoRange(r *Range) *dto.Range {
+	if r == nil {
+		return nil
+	}
+	out := &dto.Range{}
+	v := reflect.ValueOf(out).Elem()
+	for name, x := range map[string]int{"Start": r.Start, "End": r.End} {
+		f := v.FieldByName(name)
+		switch f.Kind() {
+		case reflect.Int, reflect.Int8, reflect.Int16, reflect.Int32, reflect.Int64:
+			f.SetInt(int64(x))
+		case reflect.Uint, reflect.Uint8, reflect.Uint16, reflect.Uint32, reflect.Uint64:
+			f.SetUint(uint64(x))
+		}
+	}
+	return out
+}
+
+func (w *World) ProposeSign(by int, roundID string, data map[string][]byte, rng *Range) error {
 	id, err := hex.DecodeString(roundID)
 	if err != nil {
 		return err
@@ -518,7 +542,7 @@ func (w *World) ProposeSign(by int, roundID string, data map[string][]byte, rng 
 		}
 		return api.ProposeBatch(id, data)
 	}
-	return w.Nodes[by].Svc.ProposeSignMessages(&dto.ProposeSignBatchMessagesDTO{DkgID: id, Data: data, Range: rng})
+	return w.Nodes[by].Svc.ProposeSignMessages(&dto.ProposeSignBatchMessagesDTO{DkgID: id, Data: data, Range: dtoRange(rng)})
 }
 
 // SignMsg builds a board message signed with node n's communication key (harness-built traffic).
